@@ -309,7 +309,8 @@ def ad_invariants(alg, pre, bad):
     return None
 
 
-def run_ad(unit, res, replay=None):
+def run_ad(unit, res, replay=None, extra_check=None, prop=PROPERTY):
+    """extra_check(alg_before_step_copy, alg_after, done, calls, bad) -> violation | None lets C06/C07 reuse this exploration"""
     _, d, depth_max, which, spec, eps, horizon = unit
     core.import_vopy()
     from vopy.algorithms import VOGP_AD
@@ -325,7 +326,7 @@ def run_ad(unit, res, replay=None):
 
     def bad_factory(path):
         def bad(kind, want, got, msg):
-            return core.violation(PROPERTY, {"kind": kind, "d": d}, {"mode": "ad", "unit": list(unit), "path": [list(p) if p else [] for p in path]}, want, got,
+            return core.violation(prop, {"kind": kind, "d": d, "alg": "VOGP_AD"}, {"mode": "ad", "unit": list(unit), "path": [list(p) if p else [] for p in path]}, want, got,
                                   f"VOGP_AD(d={d}, depth_max={depth_max}, problem={which}, cone={cones.name(spec)}, eps={eps}) after events {path}: {msg}")
         return bad
 
@@ -364,11 +365,16 @@ def run_ad(unit, res, replay=None):
         pre = {"S": set(alg.S), "P": set(alg.P), "latch": bool(alg.enable_epsilon_covering), "all": set(range(n0)), "parents": parents0}
         res["transitions"] += 1
         res["evaluations"] += 1
+        before = copy.deepcopy(alg) if extra_check is not None else None
+        alg.problem.calls = []
+        alg.model.added = []
         try:
-            alg.run_one_step()
+            done = alg.run_one_step()
         except Exception as e:
             return None, bad_factory(path)("step-raised", "completes", repr(e)[:160], f"run_one_step raised {e!r}")
-        v = ad_invariants(alg, pre, bad_factory(path))
+        v = ad_invariants(alg, pre, bad_factory(path)) if extra_check is None else None
+        if v is None and extra_check is not None:
+            v = extra_check(before, alg, done, list(alg.problem.calls), bad_factory(path))
         return alg, v
 
     init = copy.deepcopy(base)
